@@ -87,13 +87,13 @@ def cfg(probe, lattice, calls, flips, intended, export, invariants=()):
 def instances(ctx):
     """(probe id, lattice, calls, flips) - the histories of each instance are replayed into the code"""
     q = [("P1", SMALL, 2, 1), ("P2", SMALL, 1, 2)]
-    t = [("P1", SMALL, 3, 1), ("P2", SMALL, 3, 1), ("P1", WIDE, 2, 1), ("P2", SMALL, 2, 2)]
+    t = [("P1", SMALL, 3, 1), ("P2", SMALL, 3, 1), ("P1", WIDE, 2, 1), ("P2", SMALL, 1, 3), ("P1", SMALL, 1, 2)]
     return ctx.pick(q, t)
 
 
 def model_only(ctx):
     """larger instances, intended variant only: the property as an invariant over a bigger history space"""
-    return ctx.pick([("P1", WIDE, 2, 1)], [("P1", SMALL, 3, 2), ("P2", WIDE, 2, 2)])
+    return ctx.pick([("P1", WIDE, 2, 1)], [("P1", SMALL, 3, 2), ("P2", WIDE, 2, 2), ("P2", SMALL, 2, 2)])
 
 
 # ------------------------------------------------------------------------------------------------ encoding
